@@ -18,8 +18,17 @@ Histories are Python statements executed with `exec` over small trees of
 very statement sequence followed by the failing assertion.  Operations may
 raise (bad index, type error, ...): the tree must be well-formed all the same.
 
-case_id = <container>.<operation>[@context][!raised]/<violation kind>; the
-value class / index of the input goes to the key only.  Per step only the most
+Keys are data: `drv_key_classes` instantiates the same alphabet over trees
+whose dict keys / attribute names belong to a key class (KEY_CLASSES: path
+syntax characters, digit strings, empty string, other text, member names,
+ints), with such keys at every level of the tree and inside the inserted
+values.  The expected path of a node is the list of keys walked, compared
+key by key (never through the formatted path).
+
+case_id = <container>.<operation>[@context][!raised][[key:<family>]]/<violation kind>;
+the value class / index of the input goes to the key only; `[key:<family>]` is
+present only if the violation needs keys of that family (the same history over
+identifier-like keys is clean).  Per step only the most
 severe kind of tree violation is reported (two-places > wrong-parent >
 no-parent > stale-path > lookup > sym_root), plus at most one violation about
 the removed node.  A history is not extended past a step that broke a tree
@@ -29,6 +38,7 @@ removed node do not stop the history.
 import copy
 import keyword
 import os
+import re
 import signal
 import subprocess
 import sys
@@ -155,22 +165,30 @@ KEY_CLASSES = [
     ('negative-int', 'int', -1, -2),
 ]
 KEY_CLASS = {c[0]: c for c in KEY_CLASSES}
+# Quick tier: (classes, every core operation on every class?, other operations?).
+# Within a group an operation that is not run on every class is dealt out
+# round-robin, so that it runs on at least one class of the group.
+KEY_GROUPS = [
+    (('plain',), True, False),
+    (('dot', 'dot-edge', 'dot-only', 'bracketed-dotted'), True, True),
+    (('index-suffix', 'index-only', 'bracket-open', 'bracket-close'), True, True),
+    (('digits', 'negative-digits', 'empty'), True, True),
+    (('space', 'quotes', 'backslash-newline', 'non-ascii', 'member-name'), False, True),
+    (('int', 'negative-int'), True, True),
+]
 
 _KD_TREE = (
-    "r = pg.Dict({#K: {#K: {'i': 1}, 'e': [{#K: {'h': 1}}, 2, {#K: 1}]}, "
-    "'l': [{#K: {'j': [{#K: {}}]}}, A(x={#K: {'k': 1}}), 7, {'c': {#K: 1}}], "
-    "'d': {'m': {'n': 1}}})\n"
-    "ext = pg.Dict({#K: pg.Dict(v=pg.Dict({#K: 1})), 'j': [pg.Dict({#K: pg.Dict(e=1)})]})\n"
+    "r = pg.Dict({#K: {#K: {'i': 1}, 'e': [{#K: {}}, 2, {#K: 1}]}, "
+    "'l': [{#K: {#K: {}}}, A(x={#K: {}}), 7, {'c': 1}], 'd': {'m': {}}})\n"
+    "ext = pg.Dict({#K: pg.Dict({#K: pg.Dict()}), 'j': [pg.Dict({#K: pg.Dict()})]})\n"
     "t = ext[#K]\n"
-    "s = pg.Dict({#K: pg.Dict(h=1)})\n")
+    "s = pg.Dict({#K: pg.Dict()})\n")
 _KO_TREE = (
-    "r = C(m={#K: {#K: {'i': 1}}, 'e': [{#K: {'h': 1}}, 2]}, "
-    "n={#K: {#K: {'j': 1}}, 'p': {}}, "
-    "w=W(**{#K: {#K: {'k': 1}}, 'y': [{#K: {}}]}), "
-    "x=[W(**{#K: [{#K: {}}]}), {#K: {'c': 1}}, 7])\n"
-    "ext = pg.Dict({#K: pg.Dict(v=pg.Dict({#K: 1})), 'j': [pg.Dict({#K: pg.Dict(e=1)})]})\n"
+    "r = C(m={#K: {#K: {}}, 'e': [{#K: {}}, 2]}, n={#K: {#K: {}}, 'p': {}}, "
+    "w=W(**{#K: {#K: {}}, 'y': [{#K: {}}, 1]}), x=[{#K: [{#K: {}}]}, {#K: {}}, 7])\n"
+    "ext = pg.Dict({#K: pg.Dict({#K: pg.Dict()}), 'j': [pg.Dict({#K: pg.Dict()})]})\n"
     "t = ext[#K]\n"
-    "s = pg.Dict({#K: pg.Dict(h=1)})\n")
+    "s = pg.Dict({#K: pg.Dict()})\n")
 
 
 def _subst(template, K, N):
@@ -192,7 +210,7 @@ def key_family(kind):
 
 
 class Op:
-  __slots__ = ('group', 'label', 'src', 'code', 'core', 'vclass', 'tid')
+  __slots__ = ('group', 'label', 'src', '_code', 'core', 'vclass', 'tid')
 
   def __init__(self, group, label, src, core=False, vclass=None, tid=None):
     self.group = group
@@ -201,7 +219,13 @@ class Op:
     self.core = core
     self.vclass = vclass    # class of the inserted value (None: no value)
     self.tid = tid          # position in the alphabet, the same for every key class
-    self.code = compile(src, '<op>', 'exec')
+    self._code = None
+
+  @property
+  def code(self):
+    if self._code is None:
+      self._code = compile(self.src, '<op>', 'exec')
+    return self._code
 
   def __repr__(self):
     return f'{self.group}[{self.label}]: {self.src}'
@@ -233,7 +257,8 @@ KEY_VALUES = [
     ('detached', 's'),
     ('fresh-holding-parented', "pg.Dict({#K: t, 'u': [t]})"),
     ('fresh-with-root_path',
-     "pg.Dict({#K: pg.Dict({#N: pg.Dict()})}, root_path=pg.KeyPath(['q', #N]))"),
+     "pg.Dict({#K: pg.List([A(x=pg.Dict({#N: 1}), root_path=pg.KeyPath(['p']))], "
+     "root_path=pg.KeyPath([#K, 0]))}, root_path=pg.KeyPath(['q', #N]))"),
 ]
 CORE_VALUES = ('fresh', 'parented-in-tree', 'detached')
 _FN = ('lambda k, v: pg.Dict(rb=pg.Dict(q=1)) if isinstance(v, int) else v, '
@@ -529,6 +554,8 @@ def whole_tree_ops():
       'r0 = r\nr = next(v for v in r.sym_values() if isinstance(v, pg.Symbolic)).clone(deep=True)')
   add('clone', 'nested-node-shallow',
       'r0 = r\nr = copy.copy(next(v for v in r.sym_values() if isinstance(v, pg.Symbolic)))')
+  add('clone', 'deep-with-override',
+      'r0 = r\nr = r.clone(deep=True, override={next(iter(r.sym_keys())): pg.Dict(n=pg.Dict(m=1))})')
   add('from_json', 'roundtrip', 'r0 = r\nr = pg.from_json(pg.to_json(r))', True)
   add('from_json', 'str-roundtrip',
       'r0 = r\nr = pg.from_json_str(pg.to_json_str(r))')
@@ -605,6 +632,120 @@ def deep_rebind_ops(kind):
   return ops
 
 
+def _kp(*keys):
+  return 'pg.KeyPath([' + ', '.join(repr(k) for k in keys) + '])'
+
+
+def key_deep_rebind_ops(shape, K, N):
+  """Rebind from an ancestor through keys of the class: the paths are given
+  as `pg.KeyPath` objects (one key each, never parsed) and, as separate
+  operations, in the formatted spelling `str(pg.KeyPath(...))` (which may
+  raise or address something else, but must leave well-formed trees)."""
+  ops = []
+
+  def add(label, body, core=False, ctx='', kw=''):
+    ops.append(Op('rebind-deep' + ctx, label, f'r.rebind({{{body}}}{kw})', core))
+  V = f'pg.Dict({{{K!r}: pg.Dict({{{N!r}: pg.Dict(m=1)}})}})'
+  MV, INS = 'pg.MISSING_VALUE', 'pg.Insertion'
+  if shape == 'kd':
+    add('one-path', f"{_kp(K, K)}: {V}", True)
+    add('one-path', f"{_kp('l', 0, K)}: {V}")
+    add('one-path', f"{_kp('l', 1, 'x', K)}: {V}")
+    add('one-path', f"{_kp(K, 'e', 0)}: {INS}({V})", True)
+    add('one-path/new-key', f"{_kp(K, N)}: {V}", True)
+    add('one-path/new-key', f"{_kp('d', N)}: {V}")
+    add('one-path/parented', f"{_kp(K, K)}: t", True)
+    add('one-path/in-tree', f"{_kp('d', 'm')}: r[{K!r}]")
+    add('one-path/delete', f"{_kp(K, K)}: {MV}", True)
+    add('several-paths',
+        f"{_kp(K, K)}: {V}, {_kp('l', 0, K)}: {V}, {_kp('l', 1, 'x', K)}: t, {_kp('d', N)}: {V}", True)
+    add('several-paths/insert-delete',
+        f"{_kp('l', 0)}: {INS}({V}), {_kp('l', 2)}: {MV}, {_kp(K, 'e', 0)}: {MV}, {_kp(K, 'e', 1)}: {INS}(s)", True)
+    add('several-paths/delete-keys',
+        f"{_kp(K, K)}: {MV}, {_kp('l', 0, K)}: {MV}, {_kp('l', 3, 'c')}: {MV}, {_kp('d', 'm')}: {MV}")
+    add('several-paths/parent-and-child',
+        f"{_kp(K)}: {{{K!r}: {{'n': 2}}}}, {_kp('l', 1, 'x')}: {V}, {_kp('l', 1, 'x', K, N)}: 3")
+    add('several-paths', f"{_kp('l', 0)}: {INS}({V}), {_kp(K, 'e', 0)}: {MV}",
+        ctx='@skip_notification', kw=', skip_notification=True')
+    add('formatted-path', f"str({_kp(K, K)}): {V}", True)
+    add('formatted-path', f"str({_kp('l', 0, K)}): {V}")
+    add('formatted-path', f"str({_kp(K, 'e', 0)}): {INS}({V})")
+    add('formatted-path/new-key', f"str({_kp(K, N)}): {V}")
+    add('formatted-path/delete', f"str({_kp(K, K)}): {MV}")
+    ops.append(Op('rebind-deep', 'nested-target/list',
+                  f"r['l'].rebind({{{_kp(0, K)}: {V}, {_kp(1, 'x', K)}: {V}, {_kp(3)}: {MV}}})", True))
+  else:
+    add('one-path', f"{_kp('m', K, K)}: {V}", True)
+    add('one-path', f"{_kp('n', K, K)}: {V}", True)
+    add('one-path', f"{_kp('w', K, K)}: {V}", True)
+    add('one-path', f"{_kp('w', K)}: {V}")
+    add('one-path', f"{_kp('x', 0, K, 0)}: {INS}({V})")
+    add('one-path/new-key', f"{_kp('m', N)}: {V}", True)
+    add('one-path/new-key', f"{_kp('n', K, N)}: {V}")
+    add('one-path/new-key', f"{_kp('w', N)}: {V}")
+    add('one-path/parented', f"{_kp('n', K, K)}: t")
+    add('one-path/delete', f"{_kp('w', K)}: {MV}", True)
+    add('one-path/delete', f"{_kp('n', K)}: {MV}")
+    add('several-paths',
+        f"{_kp('m', K, K)}: {V}, {_kp('n', K, N)}: {V}, {_kp('w', K)}: t, {_kp('x', 1, K)}: s", True)
+    add('several-paths/insert-delete',
+        f"{_kp('x', 0)}: {INS}({V}), {_kp('x', 2)}: {MV}, {_kp('m', 'e', 0)}: {MV}, {_kp('w', 'y', 0)}: {INS}(s)", True)
+    add('several-paths/delete-keys',
+        f"{_kp('m', K)}: {MV}, {_kp('n', K, K)}: {MV}, {_kp('w', K)}: {MV}")
+    add('several-paths', f"{_kp('x', 0)}: {INS}({V}), {_kp('m', 'e', 0)}: {MV}",
+        ctx='@skip_notification', kw=', skip_notification=True')
+    add('formatted-path', f"str({_kp('m', K, K)}): {V}", True)
+    add('formatted-path', f"str({_kp('w', K, K)}): {V}")
+    add('formatted-path/new-key', f"str({_kp('n', K, N)}): {V}")
+    add('formatted-path/delete', f"str({_kp('w', K)}): {MV}")
+    add('typed-reset', f"{_kp('m')}: {MV}, {_kp('x')}: {MV}")
+  return ops
+
+
+def key_alphabet_ops(kind):
+  shape, label = kind.split('/', 1)
+  _, _, K, N = KEY_CLASS[label]
+  values = [(vl, _subst(v, K, N)) for vl, v in KEY_VALUES]
+  ops = []
+
+  def E(template):
+    return dict(values=values, target=template), _subst(template, K, N)
+
+  def dicts(template, intree, core, keys, **kw):
+    extra, D = E(template)
+    return dict_ops(D, _subst(intree, K, N), core, keys=keys, nk=N,
+                    nk2=(N + N if isinstance(N, str) else N - 7), **extra, **kw)
+
+  def lists(template, intree, core):
+    extra, L = E(template)
+    return list_ops(L, _subst(intree, K, N), core, **extra)
+
+  def objects(template, intree, core, fields):
+    extra, O = E(template)
+    return object_ops(O, _subst(intree, K, N), core, fields=fields, **extra)
+
+  if shape == 'kd':
+    ops += dicts("r", "r['d']['m']", True, (K, 'l'))
+    ops += dicts("r[#K]", "r['d']", True, (K, 'e'))
+    ops += dicts("r['l'][0]", "r['d']", False, (K, ''))
+    ops += dicts("r['l'][1].x", "r['d']", False, (K, ''))
+    ops += dicts("r['d']", "r['l'][0]", False, ('m', ''))
+    ops += lists("r['l']", "r['d']", True)
+    ops += lists("r[#K]['e']", "r['d']", False)
+    ops += objects("r['l'][1]", "r['d']", True, ('x', 'y'))
+  else:
+    ops += dicts("r.m", "r.w", True, (K, 'e'))
+    ops += dicts("r.n", "r.m[#K]", True, (K, 'p'))
+    ops += dicts("r.n[#K]", "r.m[#K]", False, (K, ''))
+    ops += objects("r.w", "r.m[#K]", True, (K, 'y'))
+    ops += dicts("r.x[0]", "r.m[#K]", False, (K, ''))
+    ops += objects("r", "r.m[#K]", True, ('m', 'n'))
+    ops += lists("r.x", "r.m[#K]", True)
+    ops += lists("r.w.y", "r.m[#K]", False)
+  ops += key_deep_rebind_ops(shape, K, N)
+  return ops
+
+
 _ALPHABETS = {}
 
 
@@ -612,7 +753,9 @@ def alphabet(kind):
   if kind in _ALPHABETS:
     return _ALPHABETS[kind]
   ops = []
-  if kind == 'mixed':
+  if '/' in kind:
+    ops += key_alphabet_ops(kind)
+  elif kind == 'mixed':
     ops += list_ops('r.l', 'r.d', True)
     ops += list_ops('r.d.k', 'r.l[0]')
     ops += list_ops('r.l[1].x', 'r.d.m')
@@ -653,15 +796,33 @@ def alphabet(kind):
     ops.append(Op('list.insert', 'typed/element-with-parent', 'r.l.insert(0, r.l[1])', True))
     ops.append(Op('dict.setattr', 'typed/in-tree-list', 'r.d.k = r.l'))
     ops.append(Op('object.setattr', 'typed/parented-list', 'r.l = ext.j'))
-  ops += deep_rebind_ops(kind)
+  if '/' not in kind:
+    ops += deep_rebind_ops(kind)
   ops += whole_tree_ops()
-  seen, out = set(), []
+  seen, out, count = set(), [], {}
+  for op in ops:
+    if op.tid is None:
+      n = count[(op.group, op.label)] = count.get((op.group, op.label), 0) + 1
+      op.tid = ('', op.group, op.label, n)
+  _ALPHABETS[('tid', kind)] = {op.tid: op for op in ops}
   for op in ops:
     if op.src not in seen:
       seen.add(op.src)
       out.append(op)
   _ALPHABETS[kind] = out
   return out
+
+
+def control_history(kind, hist):
+  """The same history over the control key class (identifier-like keys), or
+  None if one of its operations has no counterpart there."""
+  ckind = kind.split('/', 1)[0] + '/plain'
+  if ckind == kind:
+    return None
+  alphabet(ckind)
+  by_tid = _ALPHABETS[('tid', ckind)]
+  out = [by_tid.get(o.tid) for o in hist]
+  return None if any(o is None for o in out) else out
 
 
 # --------------------------------------------------------------------------
@@ -710,10 +871,10 @@ def check_tree(root, name, nodes=None):
     out.append(('root-has-parent', (id(root), 'rp'),
                 f'{name}.sym_parent is not None',
                 f'assert {name}.sym_parent is None'))
-  if root.sym_path != _EMPTY:
+  if list(root.sym_path.keys):
     out.append(('root-path-not-empty', (id(root), 'rpath'),
-                f'{name}.sym_path == {str(root.sym_path)!r} although {name}.sym_parent is None',
-                f'assert {name}.sym_path == pg.KeyPath(), {name}.sym_path'))
+                f'{name}.sym_path has keys {list(root.sym_path.keys)!r} although {name}.sym_parent is None',
+                f'assert {name}.sym_path.keys == [], {name}.sym_path.keys'))
   parents_ok = not out
   stack = [((), root)]
   while stack:
@@ -750,11 +911,15 @@ def check_tree(root, name, nodes=None):
                     f'assert {nav}.sym_parent is {pnav}, {nav}.sym_parent'))
         parents_ok = False
       want = KeyPath(list(ck))
-      if v.sym_path != want:
+      try:
+        got_keys = list(v.sym_path.keys)
+      except Exception as e:  # pylint: disable=broad-except
+        got_keys = f'<{type(e).__name__}: {e}>'
+      if got_keys != list(ck):
         nav = _nav(name, ck)
         out.append(('stale-path', (id(v), 'path'),
-                    f'{nav}.sym_path == {str(v.sym_path)!r} but it is stored at {str(want)!r}',
-                    f'assert str({nav}.sym_path) == {str(want)!r}, {nav}.sym_path'))
+                    f'{nav}.sym_path has keys {got_keys!r} but the node is stored under keys {list(ck)!r}',
+                    f'assert {nav}.sym_path.keys == {list(ck)!r}, {nav}.sym_path.keys'))
       try:
         got = root.sym_get(want)
         why = None if got is v else 'returned another object'
@@ -763,8 +928,8 @@ def check_tree(root, name, nodes=None):
       if why is not None:
         nav = _nav(name, ck)
         out.append(('lookup-misses-node', (id(v), 'lookup'),
-                    f'{name}.sym_get({str(want)!r}) {why}',
-                    f'assert {name}.sym_get({str(want)!r}) is {nav}'))
+                    f'{name}.sym_get(pg.KeyPath({list(ck)!r})) {why}',
+                    f'assert {name}.sym_get(pg.KeyPath({list(ck)!r})) is {nav}'))
   if parents_ok:
     for i, ck in local.items():
       v = nodes[i][0]
@@ -841,9 +1006,20 @@ class _Watchdog:
     return False
 
 
-_ENV_BASE = {'pg': pg, 'A': A, 'B': B, 'copy': copy,
+_ENV_BASE = {'pg': pg, 'A': A, 'B': B, 'C': C, 'W': W, 'copy': copy,
              '__name__': 'c01_history'}
 _SETUP_CODE = {k: compile(v, f'<tree {k}>', 'exec') for k, v in TREES.items()}
+# The first statement of a tree builds `r`, the others build `ext`, `t`, `s`
+# (independent of `r`): a history that mentions none of them runs without.
+_SETUP_ROOT_ONLY = {k: compile(v.split('\n', 1)[0], f'<tree {k}>', 'exec')
+                    for k, v in TREES.items()}
+_USES_EXT = re.compile(r'\b(ext|t|s)\b')
+
+
+def _setup(kind, ops):
+  if any(_USES_EXT.search(o.src) for o in ops):
+    return _SETUP_CODE[kind]
+  return _SETUP_ROOT_ONLY[kind]
 ROOT_NAMES = ('r', 'r0', 'ext')
 
 
@@ -865,6 +1041,29 @@ def _snapshot(env, full=True):
     else:
       collect(root, n, nodes)
   return nodes, vio
+
+
+_INITIAL_VIO = {}
+
+
+def _initial_violations(kind, setup):
+  """[(root name, keys of the node, rest of the violation's ident)] of the
+  tree as constructed (normally empty)."""
+  k = (kind, setup is _SETUP_CODE[kind])
+  if k not in _INITIAL_VIO:
+    env = dict(_ENV_BASE)
+    out = []
+    try:
+      exec(setup, env)  # pylint: disable=exec-used
+      nodes, vio = _snapshot(env)
+      for ident in vio:
+        if ident[0] in nodes:
+          _, rname, keys = nodes[ident[0]]
+          out.append((rname, keys, tuple(ident[1:])))
+    except Exception:  # pylint: disable=broad-except
+      pass
+    _INITIAL_VIO[k] = out
+  return _INITIAL_VIO[k]
 
 
 class Step:
@@ -889,8 +1088,17 @@ def run_history(kind, ops, wd=None, trusted=0):
   before): only the node inventory is taken after them.
   """
   env = dict(_ENV_BASE)
-  exec(_SETUP_CODE[kind], env)  # pylint: disable=exec-used
+  setup = _setup(kind, ops)
+  exec(setup, env)  # pylint: disable=exec-used
   before_nodes, before_vio = _snapshot(env, full=False)
+  # Violations of the freshly constructed tree (reported as construction/...)
+  # are not attributed to the operations.
+  at = None
+  for rname, keys, tag in _initial_violations(kind, setup):
+    if at is None:
+      at = {(rn, ks): i for i, (_, rn, ks) in before_nodes.items()}
+    if (rname, keys) in at:
+      before_vio[(at[(rname, keys)],) + tag] = None
   steps = []
   for idx, op in enumerate(ops):
     raised = None
@@ -980,25 +1188,42 @@ def witness_for(kind, ops, steps, upto, tail, pre):
       body.append(op.src + '\n')
   body.append(tail + '\n')
   body = ''.join(body)
-  w = HEAD
+  return HEAD + _classes_for(body, kind) + body
+
+
+def _classes_for(body, kind):
+  w = ''
+  if kind.startswith('ko/'):
+    return CLASS_W + CLASS_C + (CLASS_A if 'A(' in body else '')
   if 'A(' in body or 'B(' in body:
     w += CLASS_A
   if 'B(' in body:
     w += CLASS_B
-  return w + body
+  return w
 
 
 def _base(group):
   return group.split('@')[0]
 
 
-def _case_id(step, vkind, former=None):
+def _case_id(step, vkind, former=None, keyfam=None):
+  cid = _case_id0(step, vkind, former)
+  if keyfam:
+    head, tail = cid.rsplit('/', 1)
+    cid = f'{head}[key:{keyfam}]/{tail}'
+  return cid
+
+
+def _case_id0(step, vkind, former=None):
   """<container>.<operation>[@context][!raised]/<violation kind>.
 
   * a detached node with a stale path is attributed to the type of the
     container that dropped it (`list.replace/...`), whatever the entry point;
   * for a removed node that keeps its parent, and for violations left behind
-    by a call that raised, the context suffix is dropped.
+    by a call that raised, the context suffix is dropped;
+  * `[key:<family>]` is added in front of the violation kind when the history
+    runs over a tree of a key class and the same history over identifier-like
+    keys does not show the same violation (so the keys are what matters).
   """
   g = step.op.group
   if vkind == 'detached-node-stale-path':
@@ -1010,8 +1235,21 @@ def _case_id(step, vkind, former=None):
   return f'{g}/{vkind}'
 
 
-def record_history(rec, kind, ops, steps, start=0):
+def _control_kinds(kind, ops, upto, wd=None):
+  """Violation kinds the control history shows at step `upto` (key trees)."""
+  ch = control_history(kind, ops[:upto + 1])
+  if ch is None:
+    return set()
+  st = run_history(kind.split('/', 1)[0] + '/plain', ch, wd)
+  if len(st) != upto + 1:
+    return set()
+  last = st[-1]
+  return ({last.tree[0]} if last.tree else set()) | {v[0] for v in last.removed}
+
+
+def record_history(rec, kind, ops, steps, start=0, wd=None):
   """Records the outcome of steps[start:]."""
+  fam = key_family(kind)
   for idx in range(start, len(steps)):
     st = steps[idx]
     if not st.checked:
@@ -1024,8 +1262,9 @@ def record_history(rec, kind, ops, steps, start=0):
     if st.tree is not None:
       found.append(st.tree + (None, None))
     found.extend(st.removed)
+    plain = _control_kinds(kind, ops, idx, wd) if fam else set()
     for vk, msg, tail, pre, former in found:
-      rec.case(_case_id(st, vk, former), key, False,
+      rec.case(_case_id(st, vk, former, None if vk in plain else fam), key, False,
                message=f'[tree {kind}] after `{st.op.src}`'
                + (f' (which raised {type(st.raised).__name__})' if st.raised is not None else '')
                + f': {msg}',
@@ -1036,23 +1275,26 @@ def record_history(rec, kind, ops, steps, start=0):
 # Drivers.
 # --------------------------------------------------------------------------
 
-def _initial_trees(rec):
+def _initial_trees(rec, kinds=BASE_KINDS):
   """Checks the freshly constructed trees; returns the kinds that can be used."""
   usable = []
-  for kind in TREES:
-    w = HEAD + CLASS_A + (CLASS_B if kind == 'typed' else '') + TREES[kind]
+  for kind in kinds:
+    w = HEAD + _classes_for(TREES[kind], kind) + TREES[kind]
+    fam = key_family(kind)
+    sfx = f'[key:{fam}]' if fam else ''
     env = dict(_ENV_BASE)
     try:
       exec(_SETUP_CODE[kind], env)  # pylint: disable=exec-used
     except Exception as e:  # pylint: disable=broad-except
-      rec.case('construction/raises', (kind,), False,
+      rec.case(f'construction{sfx}/raises', (kind,), False,
                f'building tree {kind} raised {type(e).__name__}: {e}', w)
       continue
     usable.append(kind)
     for n, root in _roots(env):
       v = check_tree(root, n)
-      rec.case('construction' + (f'/{v[0][0]}' if v else ''), (kind, n), not v,
-               message=v[0][2] if v else '', witness=w + (v[0][3] if v else ''))
+      rec.case('construction' + (f'{sfx}/{v[0][0]}' if v else ''), (kind, n), not v,
+               message=f'[tree {kind}] ' + v[0][2] if v else '',
+               witness=w + (v[0][3] if v else ''))
   return usable
 
 
@@ -1076,26 +1318,26 @@ def _enumerate(rec, kind, firsts, seconds, thirds=None, wd=None,
       steps = run_history(kind, [a], wd)
       _SINGLE[(kind, a.src)] = steps[-1].tree is not None
       if record_first:
-        record_history(rec, kind, [a], steps)
+        record_history(rec, kind, [a], steps, wd=wd)
     if _SINGLE[(kind, a.src)]:
       continue
     for b in (seconds(ia) if callable(seconds) else seconds):
       h = [a, b]
       steps = run_history(kind, h, wd, trusted=1)
-      record_history(rec, kind, h, steps, 1)
+      record_history(rec, kind, h, steps, 1, wd=wd)
       if thirds is None or len(steps) < 2 or steps[-1].tree is not None:
         continue
       for c in thirds:
         h = [a, b, c]
         steps = run_history(kind, h, wd, trusted=2)
-        record_history(rec, kind, h, steps, 2)
+        record_history(rec, kind, h, steps, 2, wd=wd)
 
 
 def drv_histories_exhaustive(tier, seed):
   """Exhaustive short histories over the full operation alphabet."""
   quick = tier == 'quick'
-  sizes = '/'.join(f'{k}:{len(alphabet(k))}' for k in TREES)
-  cores = '/'.join(str(sum(o.core for o in alphabet(k))) for k in TREES)
+  sizes = '/'.join(f'{k}:{len(alphabet(k))}' for k in BASE_KINDS)
+  cores = '/'.join(str(sum(o.core for o in alphabet(k))) for k in BASE_KINDS)
   rec = Recorder(
       'C01', 'tree well-formedness after every step of short histories',
       scope=('4 trees (mixed Dict/List/Object, Object root, List root, typed '
@@ -1129,6 +1371,68 @@ def drv_histories_exhaustive(tier, seed):
   return rec.result()
 
 
+def _quick_key_ops(kind, seed):
+  """Quick tier: the core operations on every key class (dealt out within
+  the group for plain text keys); the other operations without a context
+  manager / flag and with a fresh value (also one built with a root_path of
+  its own), a raw value or no value are dealt out
+  round-robin to the classes of a group (KEY_GROUPS), so that each runs on at
+  least one class of every group (not for the control class)."""
+  label = kind.split('/', 1)[1]
+  group, core_all, rest = next(g for g in KEY_GROUPS if label in g[0])
+  me, n = group.index(label), len(group)
+  out = []
+  for i, o in enumerate(alphabet(kind)):
+    mine = (i + seed) % n == me
+    if o.core:
+      if core_all or mine:
+        out.append(o)
+    elif (rest and mine and o.vclass in (None, 'fresh', 'raw', 'fresh-with-root_path')
+          and (o.vclass is None or '@' not in o.group)):
+      out.append(o)
+  return out
+
+
+def drv_key_classes(tier, seed):
+  """The operation alphabet over trees whose keys are not identifier-like."""
+  quick = tier == 'quick'
+  nk = len(KEY_CLASSES)
+  rec = Recorder(
+      'C01', 'tree well-formedness when keys contain path syntax, look like '
+      'indices, are empty, are ints, ...',
+      scope=(f'{nk} key classes (control: identifier-like; path syntax: dots, '
+             'brackets, both; digit strings; empty string; blanks, quotes, '
+             'backslash/newline, non-ascii; names of members of pg.Dict; ints) '
+             'x 2 trees (untyped Dict/List/Object tree; Object with StrKey dict '
+             'fields and an Object that takes arbitrary attribute names -- str '
+             'keys only): such keys at every level of the constructed tree and in '
+             'the inserted values (10 value classes incl. a value built with its '
+             'own root_path); alphabet = every list/dict/object mutator on 8 '
+             'containers per tree, rebind with KeyPath keys, with plain-string '
+             'and with formatted-path keys, clone/copy/JSON round trips; '
+             + ('histories of length 1: all core operations for every class '
+                '(dealt out among the 5 plain-text classes), the others '
+                '(fresh/fresh with root_path/raw/no value, no flags) dealt out round-robin '
+                'within 5 groups of classes'
+                if quick else
+                'all histories of length 1; length 2: core x core[seed%16::16]')
+             + '; a violation that the same history shows with identifier-like '
+               'keys is recorded under the id without [key:...]'))
+  with _Watchdog(10) as wd:
+    for kind in _initial_trees(rec, KEY_KINDS):
+      if quick:
+        for o in _quick_key_ops(kind, seed):
+          steps = run_history(kind, [o], wd)
+          record_history(rec, kind, [o], steps, wd=wd)
+      else:
+        ops = alphabet(kind)
+        core = [o for o in ops if o.core]
+        _enumerate(rec, kind, ops, [], wd=wd)
+        _enumerate(rec, kind, core, core[(seed % 16)::16], wd=wd,
+                   record_first=False)
+  return rec.result()
+
+
 def _sig(steps):
   s = steps[-1]
   return (s.op.src, s.tree[0] if s.tree else None,
@@ -1157,28 +1461,30 @@ def drv_histories_random(tier, seed):
   """Seeded random longer histories (length 3..7), checked after every step."""
   quick = tier == 'quick'
   n = 180 if quick else 4000
+  nkey = 8 if quick else 150
   rec = Recorder(
       'C01', 'tree well-formedness after every step of random histories',
-      scope=f'{n} seeded histories per tree (4 trees) of length 3..7 over the '
-            'full alphabet; a statement that breaks the tree as a single step '
-            'on the running code is kept with probability 5% only, so that '
-            'histories get long; failing histories are shrunk greedily')
+      scope=f'{n} seeded histories per tree (4 trees) and {nkey} per key-class '
+            f'tree ({len(KEY_KINDS)} trees, see drv_key_classes) of length 3..7 '
+            'over the full alphabet; on the 4 trees a statement that breaks the '
+            'tree as a single step on the running code is kept with probability '
+            '5% only, so that histories get long; failing histories are shrunk greedily')
   with _Watchdog(10) as wd:
-    for kind in _initial_trees(Recorder('C01', '', '')):
+    for kind in _initial_trees(Recorder('C01', '', ''), BASE_KINDS + tuple(KEY_KINDS)):
       ops = alphabet(kind)
       r = rng(seed, 'c01-random-' + kind)
-      for _ in range(n):
+      for _ in range(nkey if '/' in kind else n):
         k = r.randint(3, 7)
         hist = []
         while len(hist) < k:
           o = r.choice(ops)
-          if _single(kind, o, wd) and r.random() > 0.05:
+          if '/' not in kind and _single(kind, o, wd) and r.random() > 0.05:
             continue
           hist.append(o)
         steps = run_history(kind, hist, wd)
         if any(s.bad for s in steps):
           hist, steps = _shrink(kind, hist, steps, wd)
-        record_history(rec, kind, hist, steps)
+        record_history(rec, kind, hist, steps, wd=wd)
   return rec.result()
 
 
@@ -1203,8 +1509,12 @@ _SELF_CHECK = '''\
 import signal
 class _Hang(BaseException): pass
 def _h(*a): raise _Hang()
+# CPU time of this process (a busy machine must not look like a hang), with a
+# generous wall-clock limit behind it; both are disarmed before exiting.
+signal.signal(signal.SIGPROF, _h)
 signal.signal(signal.SIGALRM, _h)
-signal.setitimer(signal.ITIMER_REAL, %(limit)s)
+signal.setitimer(signal.ITIMER_PROF, %(limit)s)
+signal.setitimer(signal.ITIMER_REAL, 20 * %(limit)s)
 try:
   try:
 %(stmt)s
@@ -1222,6 +1532,9 @@ except _Hang:
   raise AssertionError('inserting a node below itself does not terminate')
 except RecursionError:
   raise AssertionError('inserting a node below itself overflows the stack')
+finally:
+  signal.setitimer(signal.ITIMER_PROF, 0)
+  signal.setitimer(signal.ITIMER_REAL, 0)
 '''
 
 
@@ -1237,7 +1550,7 @@ def drv_self_insertion(tier, seed):
   rec = Recorder(
       'C01', 'insertion of a node below itself / below its own descendant',
       scope=f'{len(_SELF_INSERTION_CASES)} entry points, each run in a '
-            f'subprocess; the call must return or raise within {limit}s and '
+            f'subprocess; the call must return or raise within {limit}s of CPU time and '
             'leave a well-formed tree')
   env = dict(os.environ)
   env['PYTHONPATH'] = os.pathsep.join(p for p in sys.path if p)
@@ -1287,7 +1600,8 @@ def _self_insertion_witness(setup, stmt):
           'assert p.returncode == 0, p.stderr.decode()[-200:]\n')
 
 
-DRIVERS = [drv_histories_exhaustive, drv_histories_random, drv_self_insertion]
+DRIVERS = [drv_histories_exhaustive, drv_histories_random, drv_key_classes,
+           drv_self_insertion]
 
 
 def replay(rec):
